@@ -81,6 +81,23 @@ CHECKS = {
         technique="Lean 4 proof about the evaluator's store + exhaustive aliasing matrix and random programs through the real compiler",
         ref="§5 C08",
     ),
+    "C09": dict(
+        text=("Proof (Lean 4) about DDP.Resolve, a transcription of sortAliases and the first-fitting loop of parser.alias: the comparator is a "
+              "strict order (irreflexive, asymmetric, transitive, total up to equal keys: before_iff and corollaries), the tried order is "
+              "ordered by it for every candidate list (sortC_ordered), and the selected alias fits the argument types while NO fitting "
+              "candidate comes before it (select_best) — hence none is longer (select_longest), among the longest none has fewer generic "
+              "parameters (select_prefers_nongeneric), among those none has more Referenz parameters (select_prefers_referenz); a call "
+              "resolves whenever some matched alias fits (select_some). Ties: (1) the real sortAliases (hook VerifSortAliases) vs the "
+              "model's order on thousands of random candidate lists; (2) generated programs with two families of 5-9 functions whose alias "
+              "patterns are prefixes of each other / equal with other parameter types / generic / Referenz variants / placeholders in "
+              "another order than the parameters, 12 calls each: the function that runs and its parameter values by name are compared "
+              "with the model's selection; (3) fixed programs: negated alias, operator overloads chosen by exact operand types with the "
+              "built-in meaning otherwise, binding by placeholder name."),
+        note=TB + "Matching of tokens to patterns (the trie walk) and the type test are the implementation's; the Python side recomputes "
+             "which aliases match and fit. Ties on (length, generic, Referenz) are unspecified and not judged.",
+        technique="Lean 4 proof about a transcription of the alias order and selection + correspondence with the real comparator + generated overload programs",
+        ref="§5 C09",
+    ),
     "C10": dict(
         text=("Proof (Lean 4) about DDP.Modules.visit/initSeq, a transcription of the initialisation walk (only the main module calls "
               "initialisers; at each of its import statements, in source order, the imported module and everything it imports are "
